@@ -87,7 +87,44 @@ def c17(run):
     return run.finish(RULE_TRACE)
 
 
-CHECKS = {"C01": c01, "C02": c02, "C04": c04, "C05": c05, "C06": c06, "C07": c07, "C08": c08, "C11": c11, "C12": c12,
+RULE_PRIM = ("direction B at primitive level: the real codec primitives (every generic instantiation named) are called with seeded/"
+             "enumerated arguments; TLC judges every call with PWrite/PRead of Prims.tla (the same renderings as the message interpreter); "
+             "distinct_nontrivial = distinct (primitive, prefix width, element kind, byte order, width, pad, side, length class, outcome) tuples. ")
+
+
+def c03(run):
+    run.trace("prim-pairs", Q(run, 1, 6))
+    run.trace("roundtrip-canon", Q(run, 3, 40), types=[t for t in all_types() if t.split(".")[0] in ("bse", "sample")], seed_off=100)
+    run.trace("roundtrip-canon", Q(run, 1, 10), seed_off=200)
+    return run.finish(RULE_PRIM + RULE_TRACE)
+
+
+def c13(run):
+    run.trace("prim-fixed", Q(run, 2, 30))
+    return run.finish(RULE_PRIM + "Widths 0..5,10,16,200; pads 00,20,30,80,E9,FF and a random one; both sides; texts of length 0..N+2 over {pad,00,20,41,C3,A9,FF,30} and random bytes.")
+
+
+def c14(run):
+    run.trace("calc", Q(run, 1, 10), chunk=3000)
+    run.trace("calc-giant", Q(run, 1, 2), seed_off=100)
+    if run.tier == "thorough":
+        run.trace("calc-exhaustive2", 1, seed_off=200, chunk=20000)
+    return run.finish(RULE_PRIM + "All strings of <= 1 byte, 2-byte strings over a 32-symbol boundary alphabet (all 65,536 in the thorough tier), 3-byte strings over 8 symbols, "
+                      "random strings up to 4 KB, run-length described inputs up to 33 MB for the sums (Sum8Runs) and 70-300 KB for the CRCs.")
+
+
+def c18(run):
+    run.trace("prim-limits", Q(run, 1, 2), chunk=40)
+    run.trace("msg-limits", Q(run, 1, 2), seed_off=100, chunk=6)
+    return run.finish(RULE_PRIM + "Lengths 0,1,254..257,300,511,512 behind 8-bit prefixes and 65535,65536 (thorough: 65534..65537,131072) behind 16-bit prefixes, every prefixed writer, both byte orders; message level: the pinned fields with 16-bit prefixes.",
+                      )
+
+
+def all_types():
+    return sorted(json.load(open(SCHEMA))["types"].keys())
+
+
+CHECKS = {"C03": c03, "C13": c13, "C14": c14, "C18": c18, "C01": c01, "C02": c02, "C04": c04, "C05": c05, "C06": c06, "C07": c07, "C08": c08, "C11": c11, "C12": c12,
           "C15": c15, "C16": c16, "C17": c17}
 
 
